@@ -136,14 +136,15 @@ fn lex_err(e: &LexicaseError) -> Value {
     }
 }
 
-fn tsize_err(dbg: &str) -> Value {
-    // TournamentSizeError has private fields: read them off Debug
-    let num = |key: &str| -> u64 {
-        dbg.split(key).nth(1).map_or(0, |r| {
-            r.chars().skip_while(|c| !c.is_ascii_digit()).take_while(char::is_ascii_digit).collect::<String>().parse().unwrap_or(0)
-        })
-    };
-    json!({"k": "tournament_size", "size": num("tournament_size"), "pop": num("population_size")})
+/// `TournamentSizeError` has private fields but a public constructor and `==`: the payload is
+/// checked against the error the configuration calls for, whatever its rendering
+fn tsize_err(e: &ec_core::operator::selector::tournament::TournamentSizeError, k: usize, n: usize) -> Value {
+    use ec_core::operator::selector::tournament::TournamentSizeError;
+    if NonZeroUsize::new(k).is_some_and(|nz| *e == TournamentSizeError::new(nz, n)) {
+        json!({"k": "tournament_size", "size": k, "pop": n})
+    } else {
+        json!({"k": "tournament_size", "size": "other", "pop": "other", "debug": format!("{e:?}")})
+    }
 }
 
 /// Container flavours a selector is exercised on.
@@ -188,8 +189,11 @@ pub fn select_once(case: &Value, container: &str, rng: &mut SmallRng) -> Value {
             "worst" => on_iterable!(Worst, empty),
             "random" => on_slice!(Random, empty),
             "tournament" => {
-                let t = Tournament::new(NonZeroUsize::new(u(&case["k"]) as usize).expect("k >= 1"));
-                on_slice!(t, |e| tsize_err(&format!("{e:?}")))
+                // `k_real`: a tournament larger than the population stands for ANY larger size
+                let k = case.get("k_real").map_or(u(&case["k"]), u) as usize;
+                let n = pop.len();
+                let t = Tournament::new(NonZeroUsize::new(k).expect("k >= 1"));
+                on_slice!(t, |e| tsize_err(&e, k, n))
             }
             "lexicase" => {
                 let l = Lexicase::new(u(&case["c"]) as usize);
@@ -225,6 +229,25 @@ pub fn replay(args: &[String]) -> i32 {
                 if !arr(&c["allowed"]).iter().any(|a| *a == ob["res"]) {
                     bad += 1;
                     out.line(&json!({"kind": "mismatch", "case": c, "container": container, "observed": ob["res"]}));
+                    break;
+                }
+            }
+        }
+        // a tournament larger than the population is refused whatever its size: the same case with
+        // sizes up to usize::MAX
+        if c["case"]["sel"] == "tournament" && u(&c["case"]["k"]) as usize > arr(&c["case"]["pop"]).len() {
+            let npop = arr(&c["case"]["pop"]).len();
+            for k_real in [1usize << 20, 1 << 32, usize::MAX / 4, usize::MAX / 2 + 1, usize::MAX] {
+                n += 1;
+                let mut case = c["case"].clone();
+                case["k_real"] = json!(k_real);
+                let ob = select_once(&case, "vec", &mut rng);
+                if ob["res"] != json!({"k": "tournament_size", "size": k_real, "pop": npop}) {
+                    bad += 1;
+                    let mut cc = c.clone();
+                    cc["case"] = case;
+                    cc["allowed"] = json!([{"k": "tournament_size", "size": k_real, "pop": npop}]);
+                    out.line(&json!({"kind": "mismatch", "case": cc, "container": "vec", "observed": ob["res"]}));
                     break;
                 }
             }
